@@ -46,6 +46,8 @@ def run(tier, seed):
                  "compressed bytes handed out. Not decided: the order in which directories and deferred symlinks are re-presented "
                  "(a property of call histories).")
     with Context(tier) as ctx:
+        from .. import selfcheck
+        selfcheck.run(ctx, rep, ['facts'])
         mod = ctx.plain()
         cg = CallGraph(mod)
         lib_files = set(u.split("/")[1] for u in ctx.views.units if u.startswith("lib/")) | {"bit_stream_reader.c", "tree_decode.c", "lh_new_decoder.c", "pma_common.c"}
